@@ -3,6 +3,7 @@
 caller gives is the one the core sees). lazy_init -> init -> init_with_output: every option must reach the
 next layer unchanged; the positional and keyword arguments are passed through as they are."""
 from pyvc.vc import *  # noqa
+import z3
 
 F = 'flax/linen/module.py'
 ModuleObj = opaque('ModuleObject', is_str=False)
@@ -99,3 +100,193 @@ clone_fn = function(
     'forall(FlaxId, lambda k: implies(k in old(cache), k in cache and cache[k] == old(cache)[k]))',
   ],
   props=('C02',))
+
+# ---- functional nn.apply / nn.init_with_output: the caller's mutable filter reaches the core, plus 'intermediates' exactly
+# ---- when intermediates are captured --------------------------------------------------------------------------------
+CapFn = opaque('CaptureFilterFunction', is_str=False)
+CapFn.truthy = lambda t: z3.BoolVal(True)      # a function object is truthy
+Capture = Union('CaptureIntermediates', [
+  Ctor('CBool', [('b', BOOL)], pytypes=('bool',), payload='b'),
+  Ctor('CFilter', [('f', CapFn)], pytypes=('function', 'object'), payload='f'),
+])
+union_f = UFn('union_filters', [Opt, Opt], Opt, 'flax.core.scope.union_filters (contract: specs/linen_filters.py)')
+
+
+def _core_entry(tag):
+  def call(ex, a, kw):
+    ex.ghost[tag + ':n'] = ex.ghost.get(tag + ':n', 0) + 1
+    ex.ghost[tag + ':mutable'] = ex.coerce(kw['mutable'], Opt) if 'mutable' in kw else SV(Opt, Opt.literal('<not given: the core default applies>'))
+    ex.ghost[tag + ':shape'] = len(a) == 1 and set(kw) <= {'mutable'}
+    return ex.fresh(Opt, 'core_' + tag)
+  return call
+
+
+CAPTURES = "(is_(old(capture_intermediates), 'CFilter') or old(capture_intermediates).b)"
+for _name, _core in (('apply', 'core.apply'), ('init_with_output', 'core.init')):
+  function(
+    F + '::' + _name, params=[('fn', Opt), ('module', ModuleObj), ('mutable', Opt), ('capture_intermediates', Capture)], returns=Opt,
+    free=[('capture_call_intermediates', Capture)], requires=["is_(capture_call_intermediates, 'CFilter')"], assigns=('capture_intermediates', 'mutable'),
+    ensures=[f"ghost('{_name}:n') == 1", f"ghost('{_name}:shape')",
+             f"ghost('{_name}:mutable') == (union_filters(old(mutable), 'intermediates') if {CAPTURES} else old(mutable))"],
+    bindings={_core: Handler(_core, _core_entry(_name), 'records the mutable filter handed to the core'), 'union_filters': union_f,
+              'functools.wraps': Handler('functools.wraps', lambda ex, a, kw: Handler('wraps(fn)', lambda ex2, a2, kw2: a2[0], 'identity decorator'), 'functools.wraps(fn): metadata only'),
+              },
+    props=('C01',))
+
+
+def _rec_iwo(ex, a, kw):
+  ex.ghost['fiwo:n'] = ex.ghost.get('fiwo:n', 0) + 1
+  names = ['fn', 'module', 'mutable', 'capture_intermediates']
+  bound = dict(zip(names, a))
+  bound.update(kw)
+  ex.ghost['fiwo:shape'] = len(a) <= 4 and set(bound) <= set(names)
+  for k in names:
+    ex.ghost['fiwo:' + k] = bound.get(k, SV(Opt, Opt.literal('<not given: the callee default applies>')))
+  return ex.fresh(Opt, 'init_fn')
+
+
+function(
+  F + '::init', params=[('fn', Opt), ('module', ModuleObj), ('mutable', Opt), ('capture_intermediates', Capture)], returns=ANY,
+  # nn.init is nn.init_with_output with the very same four arguments (keeping only the variables)
+  ensures=["ghost('fiwo:n') == 1", "ghost('fiwo:shape')", "ghost('fiwo:fn') == fn", "ghost('fiwo:module') == module", "ghost('fiwo:mutable') == mutable",
+           "ghost('fiwo:capture_intermediates') == capture_intermediates"],
+  bindings={'init_with_output': Handler('init_with_output', _rec_iwo, 'records the arguments (contract of init_with_output above)'),
+            'functools.wraps': Handler('functools.wraps', lambda ex, a, kw: Handler('wraps(fn)', lambda ex2, a2, kw2: a2[0], 'identity decorator'), 'functools.wraps(fn): metadata only')},
+  props=('C01',))
+
+# ---- Module.variable / Module.param: checks first, then exactly one call of the scope method with the same arguments,
+# ---- and the name is registered as belonging to that collection ---------------------------------------------------------
+from pyvc.heap import ObjSort  # noqa: E402
+NameS = opaque('VarOrCollectionName', universe=['params', 'w', 'stats'])
+ScopeRef = opaque('ScopeRef', is_str=False, nullable=True)
+ModState = ObjSort('ModuleInternalState', dict(children=MapOf(NameS, NameS)))
+LModule = ObjSort('LinenModule', dict(_initialization_allowed=BOOL, scope=ScopeRef, _state=ModState))
+name_taken = UFn('name_taken', [LModule, NameS, NameS], BOOL, 'self._name_taken(name, collection=col)')
+LModule.attr_hooks = {'__class__': lambda ex, v: ex.fresh(Opt, 'cls')}
+Opt.attrs['__name__'] = (Opt, None)
+
+
+def _scope_method(tag):
+  def call(ex, v, a, kw):
+    star = lambda x: isinstance(x, tuple) and not isinstance(x, PyTuple) and len(x) == 2 and x[0] == '*'
+    plain = [x for x in a if not star(x)]
+    stars = [x[1] for x in a if star(x)]
+    ex.ghost[tag + ':n'] = ex.ghost.get(tag + ':n', 0) + 1
+    ex.ghost[tag + ':scope'] = v
+    ex.ghost[tag + ':plain'] = PyTuple(plain)
+    ex.ghost[tag + ':shape'] = len(stars) == 1 and a and star(a[-1]) and set(kw) == {'unbox', '**'}
+    ex.ghost[tag + ':args'] = ex.coerce(stars[0], ArgPack) if stars else ex.fresh(ArgPack, 'none')
+    ex.ghost[tag + ':unbox'] = kw.get('unbox', False)
+    ex.ghost[tag + ':kwargs'] = ex.coerce(kw['**'], KwPack) if '**' in kw else ex.fresh(KwPack, 'none')
+    r = ex.fresh(Opt, 'r_' + tag)
+    ex.ghost[tag + ':result'] = r
+    return r
+  return call
+
+
+ScopeRef.methods = {'variable': _scope_method('sv'), 'param': _scope_method('sp')}
+LMB = {'Module._name_taken': Handler('Module._name_taken', lambda ex, a, kw: ex.call_value(name_taken, [a[0], a[1], kw['collection']], {}), '_name_taken(name, collection=)'),
+       'LinenModule._name_taken': Handler('Module._name_taken', lambda ex, a, kw: ex.call_value(name_taken, [a[0], a[1], kw['collection']], {}), '_name_taken(name, collection=)'),
+       'errors.NameInUseError': TypeTag('NameInUseError', (TypeTag('Exception'),))}
+mod_variable = function(
+  F + '::Module.variable', params=[('self', LModule), ('col', NameS), ('name', NameS), ('init_fn', Opt), ('init_args', ArgPack), ('unbox', BOOL), ('init_kwargs', KwPack)],
+  returns=Opt,
+  requires=['self.scope is not None'],
+  raises={'ValueError': 'not self._initialization_allowed', 'NameInUseError': 'self._initialization_allowed and name_taken(self, name, col)'},
+  ensures=["ghost('sv:n') == 1 and ghost('sv:scope') == self.scope and ghost('sv:shape')",
+           "len(ghost('sv:plain')) == 3 and ghost('sv:plain')[0] == col and ghost('sv:plain')[1] == name and ghost('sv:plain')[2] == init_fn",
+           "ghost('sv:args') == init_args and ghost('sv:unbox') == unbox and ghost('sv:kwargs') == init_kwargs",
+           "result == ghost('sv:result')",
+           # the module remembers that `name` is a variable of collection `col` - and changes no other entry
+           "self._state.children == map_set(old(self._state.children), name, col)"],
+  modifies=['self._state.children'], bindings=LMB, props=('C02',))
+mod_variable.vararg = 'init_args'
+mod_variable.kwarg = 'init_kwargs'
+mod_param = function(
+  F + '::Module.param', params=[('self', LModule), ('name', NameS), ('init_fn', Opt), ('init_args', ArgPack), ('unbox', BOOL), ('init_kwargs', KwPack)],
+  returns=Opt,
+  requires=['self.scope is not None'],
+  raises={'ValueError': 'not self._initialization_allowed', 'NameInUseError': "self._initialization_allowed and name_taken(self, name, 'params')"},
+  ensures=["ghost('sp:n') == 1 and ghost('sp:scope') == self.scope and ghost('sp:shape')",
+           "len(ghost('sp:plain')) == 2 and ghost('sp:plain')[0] == name and ghost('sp:plain')[1] == init_fn",
+           "ghost('sp:args') == init_args and ghost('sp:unbox') == unbox and ghost('sp:kwargs') == init_kwargs",
+           "result == ghost('sp:result')",
+           "self._state.children == map_set(old(self._state.children), name, 'params')"],
+  modifies=['self._state.children'], bindings=LMB, props=('C02',))
+mod_param.vararg = 'init_args'
+mod_param.kwarg = 'init_kwargs'
+
+# ---- Module.sow: an immutable collection is left alone (returns False); otherwise ONE write of reduce_fn(previous or init, value)
+SVal = opaque('SownValue', is_str=False)
+RedFn = opaque('ReduceFn', is_str=False)
+IniFn = opaque('SowInitFn', is_str=False)
+reduce_app = UFn('reduce_fn_value', [RedFn, SVal, SVal], SVal, 'reduce_fn(xs, value)')
+init_app = UFn('sow_init_value', [IniFn], SVal, 'init_fn()')
+RedFn.call_hook = lambda ex, f, a, kw: ex.call_value(reduce_app, [f, a[0], a[1]], {})
+IniFn.call_hook = lambda ex, f, a, kw: ex.call_value(init_app, [f], {})
+sc_mut = UFn('scope_is_mutable_collection', [ScopeRef, NameS], BOOL, 'scope.is_mutable_collection(col)')
+sc_has = UFn('scope_has_variable', [ScopeRef, NameS, NameS], BOOL, 'scope.has_variable(col, name)')
+sc_get = UFn('scope_get_variable', [ScopeRef, NameS, NameS], SVal, 'scope.get_variable(col, name)')
+_PUT = Effect('scope.put_variable', [ScopeRef, NameS, NameS, SVal])
+_RES = Effect('scope.reserve', [ScopeRef, NameS, NameS])
+ScopeRef.methods.update({
+  'is_mutable_collection': lambda ex, v, a, kw: ex.call_value(sc_mut, [v, a[0]], {}),
+  'has_variable': lambda ex, v, a, kw: ex.call_value(sc_has, [v, a[0], a[1]], {}),
+  'get_variable': lambda ex, v, a, kw: ex.call_value(sc_get, [v, a[0], a[1]], {}),
+  'put_variable': lambda ex, v, a, kw: ex.call_value(_PUT, [v, a[0], a[1], a[2]], {}),
+  'reserve': lambda ex, v, a, kw: ex.call_value(_RES, [v, a[0], a[1]], {}),
+})
+MUTC = 'scope_is_mutable_collection(self.scope, col)'
+HAS = 'scope_has_variable(self.scope, col, name)'
+mod_sow = function(
+  F + '::Module.sow', params=[('self', LModule), ('col', NameS), ('name', NameS), ('value', SVal), ('reduce_fn', RedFn), ('init_fn', IniFn)], returns=BOOL,
+  raises={'ValueError': 'self.scope is None'},
+  ensures=[
+    f"result == {MUTC}",
+    # immutable collection: nothing is written, reserved or registered
+    f"implies(not {MUTC}, ncalls('scope.put_variable') == 0 and ncalls('scope.reserve') == 0 and self._state.children == old(self._state.children))",
+    # mutable: exactly one write, of reduce_fn(what is stored, or init_fn() the first time, value) under (col, name)
+    f"implies({MUTC}, ncalls('scope.put_variable') == 1 and call_args('scope.put_variable')[1] == col and call_args('scope.put_variable')[2] == name and "
+    f"call_args('scope.put_variable')[3] == reduce_fn_value(reduce_fn, (scope_get_variable(self.scope, col, name) if {HAS} else sow_init_value(init_fn)), value))",
+    # the first sow of a name reserves it in the scope and registers it with the module; later ones do neither
+    f"implies({MUTC} and not {HAS}, ncalls('scope.reserve') == 1 and call_args('scope.reserve')[1] == name and call_args('scope.reserve')[2] == col and "
+    "self._state.children == map_set(old(self._state.children), name, col))",
+    f"implies({MUTC} and {HAS}, ncalls('scope.reserve') == 0 and self._state.children == old(self._state.children))",
+  ],
+  modifies=['self._state.children'], bindings=LMB, props=('C01',))
+
+# ---- thin Module accessors: an unbound module raises; a bound one asks ITS OWN scope with the same arguments --------------
+_ACCESSORS = [
+  # method, parameters after self, scope method, properties
+  ('has_variable', ['col', 'name'], 'has_variable', ('C02',)),
+  ('get_variable', ['col', 'name', 'default'], 'get_variable', ('C01',)),
+  ('put_variable', ['col', 'name', 'value'], 'put_variable', ('C01',)),
+  ('is_mutable_collection', ['col'], 'is_mutable_collection', ('C01',)),
+  ('make_rng', ['name'], 'make_rng', ('C09',)),
+  ('has_rng', ['name'], 'has_rng', ('C09',)),
+]
+ScopeRef2 = opaque('BoundScope', is_str=False, nullable=True)
+LModule2 = ObjSort('LinenModuleAcc', dict(scope=ScopeRef2))
+
+
+def _acc_method(tag):
+  def call(ex, v, a, kw):
+    ex.ghost['acc:n'] = ex.ghost.get('acc:n', 0) + 1
+    ex.ghost['acc:method'] = Lit(tag)
+    ex.ghost['acc:scope'] = v
+    ex.ghost['acc:args'] = PyTuple([ex.coerce(x, Opt) for x in a])
+    ex.ghost['acc:nokw'] = not kw
+    r = ex.fresh(Opt, 'r_' + tag)
+    ex.ghost['acc:result'] = r
+    return r
+  return call
+
+
+ScopeRef2.methods = {m: _acc_method(m) for m in {sm for _, _, sm, _ in _ACCESSORS}}
+for _m, _ps, _sm, _props in _ACCESSORS:
+  function(
+    F + '::Module.' + _m, params=[('self', LModule2)] + [(p, Opt) for p in _ps], returns=Opt,
+    raises={'ValueError': 'self.scope is None'},
+    ensures=["ghost('acc:n') == 1 and ghost('acc:nokw') and ghost('acc:scope') == self.scope", f"ghost('acc:method') == '{_sm}'",
+             f"len(ghost('acc:args')) == {len(_ps)}"] + [f"ghost('acc:args')[{i}] == {p}" for i, p in enumerate(_ps)] + (["result == ghost('acc:result')"] if _m != 'put_variable' else []),
+    modifies=[], props=_props)
